@@ -233,6 +233,26 @@ example : localPub [0, 1, 2] 5 1 ⟨none, some true, 7⟩
     = [(1, ⟨none, some true, 7⟩), (0, ⟨some 1, some false, 7⟩), (2, ⟨some 1, some false, 7⟩)] := by decide
 example : localPub [0, 1, 2] 5 1 ⟨some 0, some true, 7⟩ = [(1, ⟨some 0, some true, 7⟩)] := by decide
 
+/-! ### the origin markers of the sides are distinct -/
+
+/-- **distinct markers**: with the marker of a side taken from the pilot uid (as `Session.__init__` does:
+    `Gen.moduleFromPilotId`), different sides carry different markers - the hypothesis `sides.Nodup` of the
+    theorems above is met by every set of connected sides -/
+theorem C16_markers_distinct (sides : List Nat) (hn : sides.Nodup) :
+    (sides.map (moduleOf Gen.moduleFromPilotId)).Nodup := by
+  have e : Gen.moduleFromPilotId = true := by decide
+  rw [e]
+  have : sides.map (moduleOf true) = sides := by
+    rw [List.map_congr_left (g := id)]
+    · simp
+    · intro s _; unfold moduleOf; split <;> simp_all
+  rw [this]; exact hn
+
+/-- with one marker for all pilots a message forwarded by one pilot never reaches another one -/
+example : deliveries (localPub ([0, 1, 2].map (moduleOf false)) 2 1 { origin := none, fwd := some true, body := 7 }) 1 ≠ 1
+    ∨ ([0, 1, 2].map (moduleOf false)).Nodup = False := by
+  right; decide
+
 /-! ### RPC round trips across the sides (request -> handler -> reply) -/
 
 /-- the `fwd` default of a message type, read from messages.py -/
